@@ -2,6 +2,7 @@ import IoraModel.Lemmas.HttpClient
 import IoraModel.Lemmas.HttpServer
 import IoraModel.Lemmas.HttpExact
 import IoraModel.Lemmas.HttpServerExact
+import IoraModel.Lemmas.HttpServerConn
 /-!
 # C15 — HTTP/1.1 message framing is exact, segmentation-independent and bounded
 
@@ -689,5 +690,326 @@ makes `pos = s + 18; pos += chunkSize + 2` come back to `s` -/
 theorem F26_original_arithmetic_wraps (s : UInt64) : s + 18 + ((0xffffffffffffffec : UInt64) + 2) = s := by
   have : (18 : UInt64) + ((0xffffffffffffffec : UInt64) + 2) = 0 := by decide
   rw [UInt64.add_assoc, this, UInt64.add_zero]
+
+/-! ## Server, connection level (extension round): closes, long connections, pool oracle, worker schedule -/
+
+open Iora.Http.Srv in
+/-- **S8a (nothing after a terminal close - FC15b).** Once `handleIncomingData` has closed the connection from the I/O thread
+(a read that would exceed `MAX_BUFFER_SIZE`, a header section over `MAX_HEADER_SIZE`, invalid length information, a malformed
+chunked body), NO later read dispatches anything or changes the session, whatever it contains and however many follow - the
+session is forgotten at the moment of the close (`rejectSession`), not when the transport's queued close lands. -/
+theorem S8_nothing_after_io_close (s : Sess) (seg : Bytes) (ss : List Bytes)
+    (h : (handleIncomingData s seg).2.2 = true) :
+    srvFeed (handleIncomingData s seg).1 ss = ([], (handleIncomingData s seg).1) := by
+  apply srvFeed_dead
+  unfold handleIncomingData at h ⊢
+  split
+  · rename_i hd; simp [hd] at h
+  · rename_i hd
+    split
+    · rfl
+    · rename_i hl; simp only [hd, hl] at h ⊢; simp at h ⊢; exact h
+
+open Iora.Http.Srv in
+/-- **S8 (what is dispatched is the greedy framing of a CONTIGUOUS PREFIX of the input - every segmentation, no cap
+hypothesis).** For EVERY list of reads `ss` - including reads that trip the buffer cap, streams of any total length, invalid
+and hostile streams - there is a `j` such that the requests `handleIncomingData` dispatches are exactly, in order, the frames
+the generic greedy receive loop (`Framing.drain`: cut a frame at the front, drop exactly its bytes, repeat) cuts out of the
+concatenation of the first `j` reads, and that concatenation is a prefix of the whole input.  `j` is the number of reads up to
+the one that made the I/O thread close, all of them if none did.  In particular no request is ever framed across a dropped
+read (the defect FC15b repaired: a read dropped for the cap followed by a smaller read that was appended behind the old
+buffer). -/
+theorem S8_dispatch_is_prefix_framing (ss : List Bytes) :
+    ∃ j, j ≤ ss.length ∧
+      (srvFeed {} ss).1 = (Framing.drain stableParser (ss.take j).flatten).1.filterMap id ∧
+      (ss.take j).flatten ++ (ss.drop j).flatten = ss.flatten := by
+  obtain ⟨j, hj, he⟩ := srvFeed_prefix ss {} (.alive []) rfl
+  refine ⟨j, hj, ?_, take_flatten_prefix ss j⟩
+  rw [he, Framing.feed_eq_whole stableParser rfl (ss.take j) trivial]
+
+open Iora.Http.Srv in
+/-- **S8c (every dispatched request is read off a CONTIGUOUS range of the concatenated input).** For EVERY list of reads `ss`
+(any segmentation, any total length, reads that trip a cap, hostile bytes) and every request `raw` handed to
+`processHttpRequest`: there is an offset `off` of the concatenated input `ss.flatten` at which the extractor, run on the TRUE
+stream from there on, yields exactly `raw`, consuming the `n` bytes `[off, off + n)` - no byte of a dropped read is skipped and
+no request is assembled from bytes that were not adjacent on the wire. -/
+theorem S8_dispatched_is_contiguous_slice (ss : List Bytes) (raw : Bytes) (h : raw ∈ (srvFeedRaw {} ss).1) :
+    ∃ off n, off + n ≤ ss.flatten.length ∧ extractOne (ss.flatten.drop off) = .request raw n := by
+  have := srvFeedRaw_slices ss {} [] 0 (Nat.le_refl _) rfl raw h
+  simpa using this
+
+open Iora.Http.Srv in
+/-- … and `srvFeedRaw` is `srvFeed` before `dispatch`: S8c speaks about everything `handleIncomingData` dispatches -/
+theorem S8_raw_view (ss : List Bytes) : (srvFeed {} ss).1 = (srvFeedRaw {} ss).1.map dispatch := by
+  rw [srvFeed_raw]
+
+open Iora.Http.Srv in
+/-- witness for S8a/S8 with a read that trips the cap: a session that holds `MAX_BUFFER_SIZE` bytes gets a 1-byte read - the
+read is dropped, the session is gone, and whatever reads follow (e.g. a complete request) dispatch nothing -/
+example (b : Bytes) (hb : b.length = Gen.Http.serverMaxBufferSize) (ss : List Bytes) :
+    srvFeed { buffer := b, alive := true } ([98] :: ss) = ([], { buffer := b, alive := false }) := by
+  have h2 : handleIncomingData { buffer := b, alive := true } [98] = ({ buffer := b, alive := false }, [], true) := by
+    simp [handleIncomingData, hb]
+  simp only [srvFeed, h2]
+  rw [srvFeed_dead ss _ rfl]
+  rfl
+
+open Iora.Http.Srv in
+/-- **S2L (segmentation independence without a bound on the connection's total).** The hypothesis "the whole stream is at most
+`MAX_BUFFER_SIZE`" of S2 is replaced by the per-step one the code actually checks: every read, when it arrives, fits the cap
+together with what the session still holds (`fits`).  Any two such segmentations of one stream - of ANY total length, e.g. a
+keep-alive connection that carries gigabytes - dispatch the same requests in the same order and leave the same session. -/
+theorem S2_long_segmentation_independent (ss ts : List Bytes) (h : ss.flatten = ts.flatten)
+    (hs : fits {} ss) (ht : fits {} ts) :
+    (srvFeed {} ss).1 = (srvFeed {} ts).1 ∧ (srvFeed {} ss).2.alive = (srvFeed {} ts).2.alive ∧
+    ((srvFeed {} ss).2.alive = true → (srvFeed {} ss).2 = (srvFeed {} ts).2) := by
+  have hnil : stableParser.p [] = .more := rfl
+  have a := srvFeed_eq_feed_fits ss {} (.alive []) rfl hs
+  have b := srvFeed_eq_feed_fits ts {} (.alive []) rfl ht
+  have e := Framing.segmentation_independent stableParser hnil ss ts h trivial
+  rw [← e] at b
+  refine ⟨by rw [a.1, b.1], ?_, ?_⟩
+  · cases hc : (Framing.feed stableParser (.alive []) ss).2 with
+    | dead => rw [hc] at a b; simp only [Corr] at a b; rw [a.2, b.2]
+    | alive r => rw [hc] at a b; simp only [Corr] at a b; rw [a.2, b.2]
+  · intro halive
+    cases hc : (Framing.feed stableParser (.alive []) ss).2 with
+    | dead => rw [hc] at a; simp only [Corr] at a; rw [a.2] at halive; cases halive
+    | alive r => rw [hc] at a b; simp only [Corr] at a b; rw [a.2, b.2]
+
+open Iora.Http.Srv in
+/-- S2L's hypothesis is weaker than S2's: a stream that fits the cap as a whole fits it read by read -/
+theorem S2_fits_of_total (ss : List Bytes) (hb : ss.flatten.length ≤ Gen.Http.serverMaxBufferSize) : fits {} ss :=
+  fits_of_total ss {} (by simpa using hb)
+
+open Iora.Http.Srv in
+/-- **S1K (long keep-alive connections are framed exactly).** ANY pipeline of well-formed requests, each at most `R` bytes on
+the wire, delivered in reads of at most `L` bytes with `R + L ≤ MAX_BUFFER_SIZE` - NO bound on the number of requests or on the
+total length of the connection - is dispatched completely, in order, each request as header section + decoded body, and the
+connection stays open with an empty buffer.  (With the engine's 64 KiB reads: every request up to 960 KiB.) -/
+theorem S1_keepalive_exact (rs : List ReqSpec) (R L : Nat) (hall : ∀ r ∈ rs, r.OK ∧ r.render.length ≤ R)
+    (ss : List Bytes) (hseg : ∀ seg ∈ ss, seg.length ≤ L) (hRL : R + L ≤ Gen.Http.serverMaxBufferSize)
+    (hss : ss.flatten = renderAll rs) :
+    (srvFeed {} ss).1 = rs.map (fun r => dispatch r.raw) ∧ (srvFeed {} ss).2 = { buffer := [], alive := true } := by
+  obtain ⟨m, b', hf, ht, hp⟩ := keepalive_feed ss rs [] [] R L hall hseg hRL (Or.inl rfl) (by simpa using hss)
+  have hb' : b' = renderAll (rs.drop m) := by simpa using ht
+  have hdrop : rs.drop m = [] := by
+    rcases hp with h | ⟨r, rest, hrs, hlt⟩
+    · exact renderAll_nil_iff _ (by rw [← hb', h])
+    · exfalso
+      rw [hb', hrs] at hlt
+      simp only [renderAll, List.map_cons, List.flatten_cons, List.length_append] at hlt
+      omega
+  have hm : rs.take m = rs := by
+    have := List.take_append_drop m rs
+    rw [hdrop, List.append_nil] at this
+    exact this
+  have hf' : srvFeedRaw {} ss = ((rs.take m).map ReqSpec.raw, { buffer := b', alive := true }) := hf
+  rw [srvFeed_raw, hf', hm, hb', hdrop]
+  simp [renderAll, List.map_map, Function.comp_def]
+
+/-- the numbers of S1K for the engine's read size: 960 KiB requests in 64 KiB reads -/
+example : 983040 + 65536 ≤ Gen.Http.serverMaxBufferSize := by decide
+
+open Iora.Http.Srv in
+/-- **S9a (one pass: the pool decides where a request goes, never what is extracted).** For every session state, read and
+number of free queue slots: the requests `handleIncomingData` cuts out of the buffer in that call are the same - accepted
+ones are queued, refused ones are answered 503, and the extraction loop continues over its local copy either way. -/
+theorem S9_pass_extraction_independent_of_pool (c : Conn) (seg : Bytes) (slots : Nat) :
+    extracted (connData c seg slots).2.1 = (ioStep c.sess seg).2.1 := by
+  simp only [connData, extracted_append, route_extracted]
+  split <;> simp [extracted]
+
+open Iora.Http.Srv in
+/-- **S9 (pool refusals, worker schedule and the moment a close lands never change the framing).** For EVERY interleaving of
+reads (`data seg slots`, with an arbitrary number of free queue slots each time), worker runs (`work`) and the engine's close
+callback (`closed`): the requests the I/O thread extracts (handed to the pool or answered 503), in order, are exactly what the
+I/O thread ALONE extracts from the first `j` reads, for some `j`.  The oracles decide only where the connection stops; the
+bytes before that point are framed as if there were no pool and no workers (and by S8 that framing is the greedy framing of a
+contiguous prefix of the input). -/
+theorem S9_extraction_oracle_independent (ops : List COp) :
+    ∃ j, j ≤ (segsOf ops).length ∧
+      extracted (crun {} ops).1 = (srvFeedRaw {} ((segsOf ops).take j)).1 ∧
+      (extracted (crun {} ops).1).map dispatch = (srvFeed {} ((segsOf ops).take j)).1 := by
+  obtain ⟨j, hj, he⟩ := crun_extracted ops {}
+  exact ⟨j, hj, he, by rw [he, srvFeed_raw]⟩
+
+open Iora.Http.Srv in
+/-- **S9b (workers see every accepted request once, in acceptance order).** At any point of any interleaving: what the workers
+have handled so far, followed by what is still queued, is `processHttpRequest` applied to the accepted requests in order. -/
+theorem S9_workers_fifo (ops : List COp) :
+    workerEvs (crun {} ops).1 ++ (crun {} ops).2.pending.map dispatch = (accepted (crun {} ops).1).map dispatch := by
+  simpa using crun_workers ops {}
+
+open Iora.Http.Srv in
+/-- with enough free slots nothing is refused and the session is exactly the I/O thread's -/
+theorem S9_no_refusal (c : Conn) (seg : Bytes) (slots : Nat) (h : (ioStep c.sess seg).2.1.length ≤ slots) :
+    (connData c seg slots).1.sess = (ioStep c.sess seg).1 ∧
+    (connData c seg slots).1.pending = c.pending ++ (ioStep c.sess seg).2.1 := by
+  obtain ⟨_, b, cc⟩ := route_all_accepted (ioStep c.sess seg).2.1 slots h
+  simp [connData, b, cc]
+
+open Iora.Http.Srv in
+/-- non-vacuity of S9: a read with two requests and ONE free slot - the first is queued, the second refused (503), both are
+extracted; the refusal erases the session, the next read is ignored; the worker then handles the queued one -/
+example :
+    let g := ascii "GET / HTTP/1.1\r\nHost: a\r\n\r\n"
+    let r := crun {} [.data (g ++ g) 1, .data g 5, .work]
+    extracted r.1 = [g, g] ∧ accepted r.1 = [g] ∧ r.2.sess.alive = false ∧ (workerEvs r.1).length = 1 := by decide
+
+/-- **Gen conformance (terminal closes).** Every close `handleIncomingData` performs goes through `rejectSession`, and
+`rejectSession` erases the session under `_sessionMutex` before it asks the transport to close - what `ioStep`/`handleIncomingData`
+(`alive := false` at the moment of the close) were written from.  A plain `closeSession(sid)` on any of these paths makes this
+fail to build. -/
+theorem gen_io_close : Gen.Http.serverIoClose = Srv.ioCloseModelled := by decide
+
+/-- **Gen conformance (case folding).** `handleIncomingData` folds field names and transfer codings with an ASCII-only map
+(`asciiLower`; the model's `lower`), not with `::tolower` applied to plain `char` (undefined for bytes ≥ 0x80 where `char` is
+signed, and locale dependent) - FC15c. -/
+theorem gen_case_fold : Gen.Http.serverCaseFold = "ascii" := by decide
+
+/-- **Gen conformance (query conversion).** The statements of `processHttpRequest` that fill `req.params` are the ones
+`Srv.queryParams` was written from (first `?`, pieces cut at `&`, first `=` splits, no `=` is skipped, assignment = last wins). -/
+theorem gen_query_params : Gen.Http.serverQueryParams = Srv.queryParamsModelled := by decide
+
+/-- **Gen conformance (client header store).** `parseHeaderBlock` ASSIGNS a field line to `resp.headers[name]` (the last line
+of a repeated field wins - in particular the framing decision reads the LAST `Transfer-Encoding` line) and combines only
+repeated `Connection` lines - what `hdrAdd`/`parseHeaderBlock` of the client model were written from.  `emplace` (first line
+wins) or any other store makes this fail to build. -/
+theorem gen_client_header_store : Gen.Http.clientHeaderStore =
+    ["auto prevConnection = ciEquals(name, \"Connection\") ? resp.headers.find(name) : resp.headers.end()",
+     "if (prevConnection != resp.headers.end())", "prevConnection->second += \", \" + value",
+     "resp.headers[name] = value"] := by decide
+
+/-- **Gen conformance (whitespace before the colon).** `HttpRequest::fromWireFormat` answers 400 to a field line with SP/HTAB
+between the field name and the colon (RFC 9112 §5.1) BEFORE it trims the name - what `parseReqLines`/`nameEndsWithOWS` were
+written from (FC15d: `Content-Length : 5` used to be read as Content-Length). -/
+theorem gen_field_name_ws : Gen.Http.requestRejectsWsBeforeColon = true := by decide
+
+open Iora.Http.Srv in
+/-- **S6c (no whitespace between field name and colon).** A request any of whose field lines has SP/HTAB right before its first
+colon is never handed to a handler: the request parser answers 400 (and the worker closes). -/
+theorem S6c_ws_before_colon_rejected (before : List Bytes) (line : Bytes) (rest : List Bytes) (h : Headers) (n colon : Nat)
+    (hb : ∃ h' n', parseReqLines before h n = .ok (h', n') ∧ ∀ tail, parseReqLines (before ++ tail) h n = parseReqLines tail h' n')
+    (h0 : ∀ c, line.head? = some c → c ≠ 32 ∧ c ≠ 9) (hne : line ≠ [])
+    (hc : indexOf? (· == 58) line = some colon) (hw : nameEndsWithOWS (line.take colon) = true) :
+    parseReqLines (before ++ line :: rest) h n = .error 400 := by
+  obtain ⟨h', n', _, hcont⟩ := hb
+  rw [hcont]
+  cases hl : line with
+  | nil => exact absurd hl hne
+  | cons c0 tl =>
+    rw [hl] at hc hw h0
+    have := h0 c0 rfl
+    unfold parseReqLines
+    simp [this.1, this.2, hc, hw]
+
+open Iora.Http.Srv in
+/-- witnesses: `Content-Length : 5`, `Content-Length<HTAB>: 5`, `Host : a`, `Transfer-Encoding : chunked` are 400 -/
+example : dispatch (ascii "POST /x HTTP/1.1\r\nHost: a\r\nContent-Length : 5\r\n\r\nhello") = .rejected 400 ∧
+    dispatch (ascii "POST /x HTTP/1.1\r\nHost: a\r\nContent-Length\t: 5\r\n\r\nhello") = .rejected 400 ∧
+    dispatch (ascii "GET /x HTTP/1.1\r\nHost : a\r\n\r\n") = .rejected 400 ∧
+    dispatch (ascii "POST /x HTTP/1.1\r\nHost: a\r\nTransfer-Encoding : chunked\r\n\r\nhello") = .rejected 400 ∧
+    (match dispatch (ascii "GET /x HTTP/1.1\r\nHost: a\r\nX: y z : w\r\n\r\n") with | .handled _ _ => true | _ => false) = true := by
+  refine ⟨by decide, by decide, by decide, by decide, by decide⟩
+
+open Iora.Http.Srv in
+theorem parseMethod_status (m : Bytes) (s : Nat) (h : parseMethod m = .error s) : s = 501 ∨ s = 400 := by
+  unfold parseMethod at h
+  split at h
+  · cases h
+  · split at h <;> cases h <;> simp
+
+open Iora.Http.Srv in
+theorem parseReqLines_status : ∀ (lines : List Bytes) (hd : Headers) (n s : Nat),
+    parseReqLines lines hd n = .error s → s = 400 := by
+  intro lines
+  induction lines with
+  | nil => intro hd n s h; simp [parseReqLines] at h
+  | cons line rest ih =>
+    intro hd n s h
+    unfold parseReqLines at h
+    split at h
+    · exact ih _ _ _ h
+    · split at h
+      · cases h; rfl
+      · split at h
+        · exact ih _ _ _ h
+        · split at h
+          · cases h; rfl
+          · exact ih _ _ _ h
+
+open Iora.Http.Srv in
+theorem parseRequestLine_status (line : Bytes) (s : Nat) (h : parseRequestLine line = .error s) :
+    s = 400 ∨ s = 414 ∨ s = 501 ∨ s = 505 := by
+  unfold parseRequestLine at h
+  split at h
+  · cases h; simp
+  · split at h
+    · cases h; simp
+    · simp only at h
+      split at h
+      · cases h; simp
+      · split at h
+        · cases h; simp
+        · split at h
+          · cases h; simp
+          · split at h
+            · cases h; simp
+            · split at h
+              · cases h; simp
+              · split at h
+                · rename_i hm
+                  cases h
+                  rcases parseMethod_status _ _ hm with rfl | rfl <;> simp
+                · split at h
+                  · cases h; simp
+                  · split at h
+                    · cases h; simp
+                    · cases h
+
+open Iora.Http.Srv in
+/-- **the request parser's error statuses are exactly the ones the source throws** (`Gen.Http.requestErrorStatuses`, collected by
+the translator from every `HttpRequestError(status, …)` of `fromWireFormat` / `parseRequestLine` / `parseMethod`): whatever bytes
+the extractor hands over, a rejected request is answered with one of these statuses (or the generic 500 of a non-HTTP
+exception, which cannot occur after extraction). -/
+theorem S6d_reject_status (data : Bytes) (s : Nat) (h : fromWireFormat data = .error s) :
+    s = 500 ∨ s ∈ Gen.Http.requestErrorStatuses := by
+  have hmem : ∀ t, (t = 400 ∨ t = 414 ∨ t = 501 ∨ t = 505) → t ∈ Gen.Http.requestErrorStatuses := by
+    intro t ht; rcases ht with rfl | rfl | rfl | rfl <;> decide
+  unfold fromWireFormat at h
+  split at h
+  · cases h; exact Or.inl rfl
+  · simp only at h
+    split at h
+    · cases h; exact Or.inr (hmem 400 (by simp))
+    · split at h
+      · rename_i hrl
+        cases h
+        exact Or.inr (hmem _ (parseRequestLine_status _ _ hrl))
+      · split at h
+        · rename_i hpl
+          cases h
+          exact Or.inr (hmem _ (Or.inl (parseReqLines_status _ _ _ _ hpl)))
+        · split at h
+          · cases h; exact Or.inr (hmem 400 (by simp))
+          · split at h
+            · cases h; exact Or.inr (hmem 400 (by simp))
+            · split at h
+              · cases h; exact Or.inr (hmem 400 (by simp))
+              · cases h
+
+open Iora.Http.Srv in
+/-- each of the four statuses is reachable (the lockstep `server-reach` family drives the real parser through the same inputs) -/
+example : dispatch (ascii "GET /x HTTP/1.1\r\n\r\n") = .rejected 400 ∧
+    dispatch (ascii "BREW /x HTTP/1.1\r\nHost: a\r\n\r\n") = .rejected 501 ∧
+    dispatch (ascii "GET /x HTTP/2.0\r\nHost: a\r\n\r\n") = .rejected 505 := by decide
+
+open Iora.Http.Srv in
+/-- `req.params` witnesses: last value wins, a piece without `=` is skipped, the first `=` splits, nothing is decoded -/
+example : queryParams (ascii "/a?x=1&y=2&x=3&z") = [(ascii "x", ascii "3"), (ascii "y", ascii "2")] ∧
+    queryParams (ascii "/a?t=1=2&&=v&k=") = [(ascii "t", ascii "1=2"), ([], ascii "v"), (ascii "k", [])] ∧
+    queryParams (ascii "/a") = [] ∧ queryParams (ascii "/a?") = [] ∧
+    queryParams (ascii "/a?x=%20+?&y") = [(ascii "x", ascii "%20+?")] := by decide
 
 end Iora.C15
